@@ -161,7 +161,7 @@ class C14(Check):
                     elif k == 'del':
                         del live[op['i']]
                     elif k in ('add_map', 'get_map'):
-                        pool = [0, 1, 2, 'a', 'b', [1, 'x'], [2, 'y'], 1000, 1001, 0.5]
+                        pool = [0, 1, 2, 'a', 'b', [1, 'x'], [2, 'y'], 1000, 1001, 0.5, -1, -2, '', 2305843009213693951, [0, -1], [0, -2]]   # incl. different keys with equal hashes
                         have = [m for m, _ in live[op['i']]]
                         if k == 'add_map':
                             cand = [m for m in pool if m not in have]
